@@ -13,6 +13,7 @@ import (
 )
 
 type Clause struct {
+	Trusted bool // assumed by callers, not checked against the body (listed as an assumption)
 	Props []string // restricts the clause to these properties (default: the function's)
 	Text  string
 	Expr  *CExpr
@@ -156,7 +157,7 @@ func (cs *ContractSet) parseContractFile(file, pkgPath string) error {
 		items = append(items, item{t, i + 1})
 	}
 	// join continuation lines: a line whose first token is not a keyword continues the previous one
-	keywords := map[string]bool{"func": true, "props": true, "requires": true, "ensures": true, "modifies": true, "invariant": true,
+	keywords := map[string]bool{"func": true, "props": true, "requires": true, "ensures": true, "ensures-trusted": true, "modifies": true, "invariant": true,
 		"trusted": true, "arith": true, "inline": true, "pred": true, "ghost": true, "owner": true, "flagchan": true, "assert": true,
 		"allocates": true, "freezes": true, "invokes": true, "preserves": true, "maintains": true, "sort": true, "effect": true, "monitor": true, "locks": true, "inmonitor": true, "pure": true, "blocking": true, "note": true, "lemma": true, "params": true, "spec": true, "axiom": true}
 	var joined []item
@@ -209,7 +210,7 @@ func (cs *ContractSet) parseContractFile(file, pkgPath string) error {
 				return perr(fmt.Errorf("props outside func"))
 			}
 			cur.Props = append(cur.Props, f[1:]...)
-		case "requires", "ensures", "assert":
+		case "requires", "ensures", "assert", "ensures-trusted":
 			if cur == nil {
 				return perr(fmt.Errorf("%s outside func", kw))
 			}
@@ -247,6 +248,9 @@ func (cs *ContractSet) parseContractFile(file, pkgPath string) error {
 			switch kw {
 			case "requires":
 				cur.Req = append(cur.Req, cl)
+			case "ensures-trusted":
+				cl.Trusted = true
+				cur.Ens = append(cur.Ens, cl)
 			case "ensures":
 				cur.Ens = append(cur.Ens, cl)
 			case "assert":
